@@ -139,6 +139,8 @@ struct RkState {
 	last_brick: Option<(f64, f64)>,
 	size: f64,
 	src: Source,
+	/// the value the instance was constructed from
+	v0: f64,
 }
 #[derive(Clone, Copy, Debug)]
 struct RkAct {
@@ -177,7 +179,7 @@ impl System for RkSys {
 			for &src in &self.srcs {
 				for &v0 in &self.v0s {
 					if let Ok(imp) = Renko::new((s, src), &price_candle(v0, 1.0)) {
-						v.push((RkState { imp, vol_acc: 0.0, last_brick: None, size: s as f64, src }, format!("Renko(({s:?},{src:?})) v0={v0:?}")));
+						v.push((RkState { imp, vol_acc: 0.0, last_brick: None, size: s as f64, src, v0: price_candle(v0, 1.0).source(src) as f64 }, format!("Renko(({s:?},{src:?})) v0={v0:?}")));
 					}
 				}
 			}
@@ -217,6 +219,26 @@ impl System for RkSys {
 		let reached_up = value >= nu0;
 		let reached_dn = value <= nl0;
 		let class = a.what;
+		// "the next boundary" is one brick beyond the edge of the last block, on either side (bricks are
+		// equally sized relative to their base): the boundaries the instance works with must be those -
+		// also in the state it is constructed in
+		{
+			let b = s.size;
+			let (wu, wl) = (lu0 * (1.0 + b), ll0 * (1.0 - b));
+			let t = 8.0 * eps() * lu0.abs().max(ll0.abs());
+			// before any brick the "last block" is one brick centred on the construction value (the
+			// documentation's example: from 100.0 at 1% the first brick appears at 101.505 = 100.5 * 1.01)
+			if s.last_brick.is_none() && ((lu0 - s.v0 * (1.0 + b / 2.0)).abs() > t || (ll0 - s.v0 * (1.0 - b / 2.0)).abs() > t) {
+				return Step::Violation(Failure::new("Renko/state/initial-block", format!("constructed from {:?} with brick size {b:?}: initial block ({ll0:?}, {lu0:?})", s.v0)));
+			}
+			if (nu0 - wu).abs() > t || (nl0 - wl).abs() > t || !(ll0 < lu0) {
+				let when = if s.last_brick.is_none() { "before-any-brick" } else { "after-bricks" };
+				return Step::Violation(Failure::new(
+					format!("Renko/state/next-boundaries/{when}"),
+					format!("last block ({ll0:?}, {lu0:?}), brick size {b:?}: next boundaries are ({nl0:?}, {nu0:?}), one brick beyond the block is ({wl:?}, {wu:?})"),
+				));
+			}
+		}
 		let out = match catch(|| n.imp.next(&c)) {
 			Ok(o) => o,
 			Err(p) => return Step::Violation(Failure::new(format!("Renko/next/panic/{class}"), format!("price {value:?} (upper boundary {nu0:?}, lower {nl0:?}): panicked at {}: {}", p.at(), p.msg))),
